@@ -1,6 +1,7 @@
 package main
 
 import (
+	"github.com/resonatehq/resonate/internal/app/subsystems/aio/router"
 	"fmt"
 	"math/rand"
 
@@ -18,6 +19,7 @@ type world struct {
 	procs []string
 	n     int
 	w     map[string]int // weights
+	rkey  string         // routing tag key in use (custom router source), "" = the built-in one
 }
 
 func (w *world) key() *idempotency.Key {
@@ -37,6 +39,10 @@ func (w *world) timeout() int64 {
 }
 
 func (w *world) tags() map[string]string {
+	if w.rkey != "" && w.r.Intn(2) == 0 {
+		// routed through the configured source, not through the built-in tag
+		return map[string]string{w.rkey: pick(w.r, routeTagValues...), "a": "b"}
+	}
 	switch x := w.r.Intn(10); {
 	case x < 3:
 		return nil
@@ -190,8 +196,17 @@ func init() {
 			}
 			cfg := randCfg(c.R, bg)
 			pol := randPolicy(c.R, true)
+			rkey := ""
+			switch c.R.Intn(6) {
+			case 0: // an additional source on another tag key
+				rkey = "app:worker"
+				cfg.Sources = []router.SourceConfig{tagSource("custom", rkey)}
+			case 1: // a source named default replaces the built-in one
+				rkey = "app:worker"
+				cfg.Sources = []router.SourceConfig{tagSource("default", rkey)}
+			}
 			s := c.NewSim(cfg, pol)
-			w := &world{s: s, r: c.R, pids: []string{"p0", "p1", "p2"}[:1+c.R.Intn(3)], procs: []string{"w1", "w2"}, w: promiseWeights}
+			w := &world{s: s, r: c.R, pids: []string{"p0", "p1", "p2"}[:1+c.R.Intn(3)], procs: []string{"w1", "w2"}, w: promiseWeights, rkey: rkey}
 			runRandom(c, s, w, 6+c.R.Intn(30), 3)
 		},
 	})
